@@ -3,7 +3,7 @@
 From Coq Require Import List Arith Bool.
 Import ListNotations.
 Require Import ModModel ModBase ModUnbounded ModAllN ModProps.
-Require ModAnti.
+Require ModAnti ModBackend.
 
 (* For ANY number of modules, any dependency graph g (wfg: dependencies name modules < n) and any listing order:
    - if start-up aborts (run = None) there is a genuine cycle among the reachable modules;
@@ -63,3 +63,29 @@ Theorem unrepaired_code_destroys_a_back_end_first : exists n g a listing lg,
               before (index (isDT b) lg 0) (index (isDT x) lg 0) = true.
 Proof. exact ModAnti.unfixed_destroys_back_end_first. Qed.
 Print Assumptions unrepaired_code_destroys_a_back_end_first.
+
+(* BACKENDS OF THE CORE (module_is_backend): run3 fixed n g a bk listing adds the flag bk; fixed = true is module_close_all as
+   repaired (D29: a second series of rounds over what the first left), fixed = false the code as it was (backends and everything
+   they depend on destroyed in name order).  For ANY number of modules, graphs, flags and listing: everything of
+   back_end_declarations_are_respected still holds, and an ordinary module that no loaded backend depends on (directly or through
+   other modules) is destroyed before every module that a backend is or depends on. *)
+Theorem backends_are_unloaded_last_and_in_dependency_order : forall n g a bk listing, ModAnti.wfg2 n g a -> (forall m, In m listing -> m < n) ->
+  match ModBackend.run3 true n g a bk listing with
+  | None => ModAnti.cyclic2 g a listing
+  | Some lg => ~ ModAnti.cyclic2 g a listing /\ ModAnti.ok_log2 g a listing lg /\ ModBackend.backends_last bk (ModAnti.loaded g a listing) g a lg
+  end.
+Proof. exact ModBackend.run3_meets_monitor. Qed.
+Print Assumptions backends_are_unloaded_last_and_in_dependency_order.
+
+Theorem model_with_backends_is_conservative : forall fixed n g a listing,
+  ModBackend.run3 fixed n g a (fun _ => false) listing = ModAnti.run2 true n g a listing.
+Proof. exact ModBackend.run3_no_backend. Qed.
+Print Assumptions model_with_backends_is_conservative.
+
+(* D29 refuted on the model of the code as it was: the module a backend depends on is destroyed before the backend *)
+Theorem unrepaired_code_destroys_a_backends_dependency_first : exists n g a bk listing lg,
+  ModAnti.wfg2 n g a /\ (forall m, In m listing -> m < n) /\ ModBackend.run3 false n g a bk listing = Some lg /\
+  exists b d, bk b = true /\ In d (g b) /\ precedes (DT d) (DT b) lg /\ count (isDT b) lg = 1 /\ count (isDT d) lg = 1 /\
+              before (index (isDT d) lg 0) (index (isDT b) lg 0) = true.
+Proof. exact ModBackend.unfixed_destroys_a_backends_dependency_first. Qed.
+Print Assumptions unrepaired_code_destroys_a_backends_dependency_first.
